@@ -20,6 +20,7 @@ func main() {
 	verbose := flag.Bool("v", false, "verbose")
 	dump := flag.String("dump", "", "directory to dump failing queries")
 	timeout := flag.Int("timeout", 10, "per-query timeout (s)")
+	nosolve := flag.Bool("nosolve", false, "symbolic execution only")
 	dumpAll := flag.Bool("dumpall", false, "dump all queries (with -dump)")
 	updateLedger := flag.Bool("update-ledger", false, "rewrite the ledger from this run")
 	verifDir := flag.String("verif", "/verif", "verif root")
@@ -62,6 +63,12 @@ func main() {
 		fv.nameObligations()
 		fvs = append(fvs, fv)
 	}
+	if *nosolve {
+		for _, fv := range fvs {
+			fmt.Printf("== %s: %d obligations, %d paths, outside=%v (%.1fs)\n", fv.short, len(fv.obls), fv.paths, fv.outside, time.Since(t0).Seconds())
+		}
+		return
+	}
 	dischargeAll(fvs, nil, time.Duration(*timeout)*time.Second, false, runtime.NumCPU())
 	fail := 0
 	for _, fv := range fvs {
@@ -76,6 +83,10 @@ func main() {
 		fmt.Printf("== %s: %d obligations, %d discharged, %d failed, %d paths\n", fv.short, len(fv.obls), ok, bad, fv.paths)
 		for _, w := range fv.outside {
 			fmt.Printf("   OUTSIDE: %s\n", w)
+		}
+		if fv.vacuous && *dump != "" {
+			o := &Obligation{script: fv.entryScript, goal: tFalse, Name: fv.short + "#entry"}
+			fmt.Printf("      entry query: %s\n", dumpQuery(*dump, fv, o, 0))
 		}
 		for _, w := range sortedKeys(fv.unmodelled) {
 			fmt.Printf("   unmodelled-call: %s\n", w)
